@@ -51,6 +51,19 @@ Theorem C13_unplaced_unfit : forall L wle wok sok, ledger_laws L wle wok sok ->
 Proof. intros L wle wok sok LL. exact (c13_laws L wle wok sok LL). Qed.
 Print Assumptions C13_unplaced_unfit.
 
+(* the corollary in replay terms: applying ONLY the decisions taken for the tasks ordered before x (each answers a
+   task of priority >= x's), i.e. discarding the placement of every later, lower-or-equal-priority task, yields a
+   cluster in which x still fits nowhere: no lower-priority task occupies anything that would have let x run *)
+Theorem C13_discard_lower_priority : forall L wle wok sok, ledger_laws L wle wok sok ->
+  forall P e pre now (c : cluster L) offered ds cf i x,
+  NoDup (map (@t_id L) offered) -> NoDup (map fst c) -> cok L wok c -> tasks_ok L sok offered ->
+  schedule_full L P e pre now c offered = Ok (ds, cf) ->
+  nth_error (ordered L P now offered) i = Some x -> nth_error ds i = Some (DUnplaced (t_id x)) ->
+  exists V, replay L offered (virtual L P pre c) (firstn i ds) = Some V /\ task_fits L V x = false /\
+            Forall (fun d => exists y, In y (firstn i (ordered L P now offered)) /\ dec_task d = t_id y) (firstn i ds).
+Proof. intros L wle wok sok LL. exact (c13_discard_later L wle wok sok LL). Qed.
+Print Assumptions C13_discard_lower_priority.
+
 (* the three policies, priorities spelled with the documented keys *)
 Theorem C13_edf : forall L wle wok sok, ledger_laws L wle wok sok ->
   forall e pre now (c : cluster L) offered ds cf i x,
